@@ -208,7 +208,13 @@ fn fuzz_mix(u: &mut Unstructured) {
                 7 => MOp::Cas(c, val(u)?, val(u)?),
                 8 => MOp::DerefGuard(u.arbitrary()?),
                 9 => MOp::DropGuard(u.arbitrary()?),
-                10 => MOp::DropHandle(u.arbitrary()?),
+                10 => {
+                    if u.ratio(1u8, 2u8)? {
+                        MOp::DropHandle(u.arbitrary()?)
+                    } else {
+                        MOp::StoreHandle(c, u.arbitrary()?)
+                    }
+                }
                 _ => {
                     if u.ratio(1u8, 2u8)? {
                         MOp::DropPool(u.int_in_range(0u8..=2)?)
